@@ -488,7 +488,7 @@ func c05(c *wk.Ctx) {
 	harness := root + "/harness"
 	stubgen := root + "/build/stubgen"
 	rounds := c.Pick(8, 20)
-	total := c.Pick(36, 1500)
+	total := c.Pick(36, 8000)
 	base := fmt.Sprintf("%s/gen/c05/s%02d", harness, c.Shard)
 	os.RemoveAll(base)
 	os.MkdirAll(base, 0755)
